@@ -78,6 +78,10 @@ func (c *reCompiler) addPattern(p *Pattern, rule *Rule) (int, error) {
 	c.out[accept].rule = rule
 	transitiveClosure(c.out[ret:])
 
+	if c.out[ret].rule != nil {
+		// Nothing was emitted for the pattern (e.g. /a{0}/): the accepting instruction comes first.
+		c.errorf("`%v` accepts empty text", p.Name)
+	}
 	for _, delta := range c.out[ret].links {
 		dst := ret + delta
 		if c.out[dst].rule != nil {
